@@ -74,3 +74,35 @@ func lastIndex(s, sub string) int {
 	}
 	return -1
 }
+
+// MultiAccountTx touches the storage of several accounts (some of them never used before) in one
+// transaction, so that one commit creates several account storage maps and writes many registers.
+func MultiAccountTx(r *R) *Program {
+	n := 3 + r.IntN(3) // signers
+	p := &Program{Tx: true, Signers: n, Features: map[string]int{"tx_multi_account": 1}}
+	src := "import C0 from 0x1\ntransaction {\n    prepare("
+	for i := 0; i < n; i++ {
+		if i > 0 {
+			src += ", "
+		}
+		src += fmt.Sprintf("a%d: auth(Storage) &Account", i)
+	}
+	src += ") {\n"
+	for i := 0; i < n; i++ {
+		k := r.IntN(50)
+		path := fmt.Sprintf("/storage/m%d", r.IntN(3))
+		switch r.IntN(4) {
+		case 0:
+			src += fmt.Sprintf("        if a%d.storage.type(at: %s) == nil { a%d.storage.save(<- C0.make(%d), to: %s) }\n", i, path, i, k, path)
+		case 1:
+			src += fmt.Sprintf("        if a%d.storage.type(at: %s) == nil { a%d.storage.save(<- C0.make1(%d), to: %s) }\n", i, path, i, k, path)
+		case 2:
+			src += fmt.Sprintf("        if a%d.storage.type(at: %s) == nil { a%d.storage.save([%d, %d, %d], to: %s) }\n", i, path, i, k, k+1, k+2, path)
+		default:
+			src += fmt.Sprintf("        if a%d.storage.type(at: %s) == nil { a%d.storage.save({\"k\": \"%d\"}, to: %s) }\n", i, path, i, k, path)
+		}
+	}
+	src += "        log(\"__END__\")\n    }\n}\n"
+	p.Source = src
+	return p
+}
